@@ -698,14 +698,13 @@ def run_case(prop, case):
             _FLAKY["fail_auto"] = False
             if consumed_fail:
                 faults["fault:pathfinder_failed_once"] += 1
-                # the failed call may fail; but it must leave no cache entry behind
+                # the failed call may fail (or recover by some fallback of its own); whatever it leaves in the caches is
+                # judged by the calls that follow, which must still agree with their uncached twins
                 if sub_err is None:
-                    V("injected-failure-swallowed", f"call {ci}: path finder raised but the call returned normally")
-                    break
+                    counters["probe:injected_failure_absorbed_by_the_call"] += 1
                 if len(I._CONTRACT_EXPR_CACHE) != n_expr0 or len(I._PATH_CACHE) != n_path0:
-                    V("cache-entry-for-failed-call", f"call {ci}: failed call left a cache entry behind")
-                    break
-                log.add("call", ci, api, spec["diff"], "injected-failure")
+                    counters["probe:failed_call_left_cache_entry"] += 1
+                log.add("call", ci, api, spec["diff"], "injected-failure", sub_err is None)
                 continue
             grew_expr = len(I._CONTRACT_EXPR_CACHE) > n_expr0
             grew_path = len(I._PATH_CACHE) > n_path0
